@@ -345,7 +345,8 @@ def run(ctx, only=None):
                   ("cor", lambda: probe_cor(ctx, gs, rng, thorough)),
                   ("spectrum", lambda: probe_spectrum(ctx, gs, rng, thorough)),
                   ("eig", lambda: probe_eig(ctx, gs, rng, thorough)),
-                  ("sphere", lambda: probe_sphere(ctx, gs, rng, thorough))]
+                  ("sphere", lambda: probe_sphere(ctx, gs, rng, thorough)),
+                  ("consts", lambda: probe_constants(ctx, gs, rng, thorough))]
         for tag, fn in stages:
             if only in (None, tag):
                 t0 = time.time()
@@ -1153,6 +1154,73 @@ def probe_eig(ctx, gs, rng, thorough):
             guarded(ctx, stage, name, cfg, sig, case, one)
 
 
+# documented unit constants (docs: "earth radius for WGS84 ellipsoid in km", "radius for unit sphere in degree",
+# "radius for unit sphere"): geo_scale is the sphere RADIUS expressed in the unit in which great-circle lags are given
+UNITS = {"RADIAN_SCALE": 1.0, "KM_SCALE": 6371.0, "DEGREE_SCALE": 180.0 / np.pi, "EARTH_RADIUS": 6371.0}
+
+
+def probe_constants(ctx, gs, rng, thorough):
+    """the documented public constants the lat-lon construction depends on have their documented values (gstools.X and
+    gstools.tools.X), the default geo_scale is RADIAN_SCALE, and each NAMED constant used as geo_scale means what the docs
+    say: a great-circle lag given in that unit (radians / km / degrees of the central angle) is mapped by the *_yadrenko
+    functions to the chord of the embedded points -- on failure the covariance matrix of sphere points built from
+    cov_yadrenko of the lags in that unit is the witness"""
+    stage = "probe: documented unit constants (geo_scale) mean what the documentation says"
+    import gstools.tools as gt
+    for cname, doc in UNITS.items():
+        for mod, modname in ((gs, "gstools"), (gt, "gstools.tools")):
+            val = getattr(mod, cname, None)
+            ctx.count(("constant", cname, modname), hist=dict(stage="probe-constants"))
+            if val is None or not (float(val) == doc or abs(float(val) - doc) <= 4e-16 * doc):
+                ctx.violation(stage, "%s.%s = %r, documented value %r" % (modname, cname, val, doc),
+                              dict(probe="constants", constant=cname, module=modname, value=repr(val), documented=repr(doc)),
+                              key="constant:%s" % cname)
+    m, _, _ = make(gs, "Gaussian", latlon=True)
+    if float(m.geo_scale) != 1.0:
+        ctx.violation(stage, "default geo_scale of a lat-lon model is %r, documented RADIAN_SCALE = 1.0" % m.geo_scale,
+                      dict(probe="constants", constant="default geo_scale", value=repr(m.geo_scale)), key="constant:default-geo_scale")
+    n = 40
+    lat = np.concatenate([rng.uniform(-90, 90, n - 4), [90.0, -90.0, 0.0, 0.0]])
+    lon = np.concatenate([rng.uniform(-180, 180, n - 4), [10.0, 77.0, 180.0, -180.0]])
+    theta = haversine_angle((lat[:, None], lon[:, None]), (lat[None, :], lon[None, :]))       # central angles (rad)
+    chord1 = 2.0 * np.sin(theta / 2.0)                                                     # chord on the unit sphere
+    for cname in ("RADIAN_SCALE", "KM_SCALE", "DEGREE_SCALE"):
+        unit = UNITS[cname]                      # independent of the package: lag in this unit = central angle * unit
+        for name in (NAMES if thorough else ["Gaussian", "Exponential", "Matern", "Spherical", "JBessel", "TPLStable"]):
+            m0, warned, _ = make(gs, name, latlon=True)
+            if warned:
+                continue
+            for frac in (0.3, 1.0):
+                # len_scale given in the same unit: `frac` radians of arc
+                m, _, _ = make(gs, name, latlon=True, geo_scale=getattr(gs, cname), len_scale=frac * unit)
+                ref, _, _ = make(gs, name, latlon=True, len_scale=frac)            # the same model on the unit sphere, radians
+                ctx.count(("constant-unit", cname, name, frac), hist=dict(stage="probe-constants", cls=name, unit=cname))
+                cy = np.asarray(m.cov_yadrenko(theta * unit), dtype=float)
+                cref = np.asarray(ref.covariance(chord1), dtype=float)
+                case = dict(probe="constants", cls=name, geo_scale="gs." + cname, len_scale=frac * unit,
+                            lat=[C.fhex(v) for v in lat], lon=[C.fhex(v) for v in lon])
+                dev = float(np.max(np.abs(cy - cref))) if np.all(np.isfinite(cy)) else float("nan")
+                ev = min_eig(cy)
+                # 25 degrees apart, as in the documentation's unit: one number for the report
+                z25 = np.deg2rad(25.0) * unit
+                c25 = float(np.asarray(m.cor_yadrenko(np.array([z25])))[0])
+                r25 = float(np.asarray(ref.correlation(np.array([2 * np.sin(np.deg2rad(12.5))])))[0])
+                if not (dev <= 1e-9 * m.var) or not (ev >= -EIG_TOL * n * m.var):
+                    report(ctx, stage, "%s(latlon=True, geo_scale=gs.%s = %r, len_scale=%r): cov_yadrenko of great-circle lags given in that unit "
+                           "deviates by %r from the covariance of the chord (cor_yadrenko(25 deg = %r) = %r, expected %r); min eigenvalue of the "
+                           "%d-point sphere matrix %r" % (name, cname, getattr(gs, cname), frac * unit, dev, z25, c25, r25, n, ev),
+                           dict(case, deviation=repr(dev), min_eig=repr(ev), cor_25deg=repr(c25), expected_25deg=repr(r25)),
+                           name, dict(dim=3), (cname,), "unit-constant:" + cname)
+                # the other route (kriging / SRF): isometrize with this radius, Euclidean distance
+                iso = m.isometrize(np.array([lat, lon]))
+                D = np.sqrt(((iso[:, :, None] - iso[:, None, :]) ** 2).sum(axis=0))
+                ci = np.asarray(m.covariance(D), dtype=float)
+                if not (np.max(np.abs(ci - cref)) <= 1e-9 * m.var):
+                    report(ctx, stage, "%s(latlon=True, geo_scale=gs.%s, len_scale=%r): covariance of the isometrized points deviates by %r from the "
+                           "unit-sphere model" % (name, cname, frac * unit, float(np.max(np.abs(ci - cref)))), case,
+                           name, dict(dim=3), (cname,), "unit-constant-isometrize:" + cname)
+
+
 def haversine_angle(P, Q):
     la1, lo1, la2, lo2 = np.deg2rad(P[0]), np.deg2rad(P[1]), np.deg2rad(Q[0]), np.deg2rad(Q[1])
     a = np.sin((la2 - la1) / 2) ** 2 + np.cos(la1) * np.cos(la2) * np.sin((lo2 - lo1) / 2) ** 2
@@ -1170,9 +1238,12 @@ def probe_sphere(ctx, gs, rng, thorough):
                 continue
             for sig, p in param_sets(m0, rng, name, 8 if thorough else 3):
                 for rep in range(2 if thorough else 1):
-                    gsc = float(rng.choice([1.0, gs.KM_SCALE]))
-                    L = float(rng.choice([0.1, 0.7, 3.0])) * gsc
+                    cname = str(rng.choice(["RADIAN_SCALE", "KM_SCALE", "DEGREE_SCALE"]))
+                    gsc = float(getattr(gs, cname))                 # geo_scale through the NAMED constant
+                    unit = UNITS[cname]                             # lags / length scales in that unit (independent of the package)
+                    L = float(rng.choice([0.1, 0.7, 3.0])) * unit
                     kw = dict(len_scale=L, geo_scale=gsc)
+                    kwn = "geo_scale=gs.%s" % cname
                     if temporal:
                         kw["anis"] = float(10.0 ** rng.uniform(-1, 1))
                     m, _, _ = make(gs, name, latlon=True, temporal=temporal, **kw, **p)
@@ -1180,7 +1251,7 @@ def probe_sphere(ctx, gs, rng, thorough):
                     lon = np.concatenate([rng.uniform(-180, 180, n - 6), [10.0, 77.0, 180.0, -180.0, 359.0, -1.0]])
                     pos = [lat, lon]
                     if temporal:
-                        pos.append(rng.uniform(0, 5, n) * L / gsc)
+                        pos.append(rng.uniform(0, 5, n) * L / unit)
                     pos = np.array(pos)
                     iso = m.isometrize(pos)                      # points of R^3 (x time / anis)
                     D = np.sqrt(((iso[:, :, None] - iso[:, None, :]) ** 2).sum(axis=0))
@@ -1197,18 +1268,18 @@ def probe_sphere(ctx, gs, rng, thorough):
                     if not temporal:
                         # Yadrenko: cov_yadrenko(great-circle distance) = covariance(chord of the embedded points)
                         i, j = rng.integers(0, n, size=(2, 40))
-                        zeta = haversine_angle((lat[i], lon[i]), (lat[j], lon[j])) * gsc
+                        zeta = haversine_angle((lat[i], lon[i]), (lat[j], lon[j])) * unit
                         cy = np.asarray(m.cov_yadrenko(zeta), dtype=float)
                         ce = Cm[i, j]
                         # the two lags agree to ~1e-15 relative of the diameter; the covariance is Lipschitz with
                         # constant <= ~10 var / len_rescaled at these scales, except next to r = 0 for rough models
-                        lag_err = np.abs(2 * gsc * np.sin(zeta / (2 * gsc)) - D[i, j])
-                        if np.max(lag_err) > 1e-12 * gsc and ("yl", name) not in ctx.nontrivial:
+                        lag_err = np.abs(2 * unit * np.sin(zeta / (2 * unit)) - D[i, j])
+                        if np.max(lag_err) > 1e-12 * unit and ("yl", name) not in ctx.nontrivial:
                             ctx.nontrivial.add(("yl", name))
                             ctx.violation("probe: Yadrenko lag equals the chord of the embedded points",
                                           "%s latlon: |2 R sin(zeta / 2R) - |p - q|| = %r" % (name, float(np.max(lag_err))),
                                           dict(probe="yadrenko-lag", cls=name, params=p, model=kw), key="yadrenko-lag:" + name)
-                        far = D[i, j] > 1e-6 * gsc
+                        far = D[i, j] > 1e-6 * unit
                         if np.any(np.abs(cy - ce)[far] > 1e-7 * m.var) and ("yc", name) not in ctx.nontrivial:
                             ctx.nontrivial.add(("yc", name))
                             ctx.violation("probe: cov_yadrenko equals covariance of the chordal distance",
